@@ -105,6 +105,11 @@ func main() {
 		}
 		enc.Encode(res)
 		out.Flush()
+		if res.Stalls > 0 {
+			// a goroutine of the code under test is (or was) stuck outside the simulator's
+			// control: this process is not a clean place for further runs
+			os.Exit(0)
+		}
 	}
 }
 
